@@ -79,6 +79,7 @@ class _W:
     root = None
     scratch = None
     zyg = {}  # flavour -> (pid, sock)
+    slot_fd = None
     profile = None
     refs = {}  # data state key -> (keys_by_cat, answers)
     next_id = 0
@@ -88,7 +89,24 @@ def worker_init() -> None:
     if _W.scratch:
         return
     base = os.environ.get("VERIF_TMP") or tempfile.gettempdir()
-    _W.root = os.path.join(base, "verif-c18-%08d" % os.getpid())
+    # the scratch folder's path ends up inside the cache files (absolute paths, fingerprints): a name from a small fixed
+    # set - the first slot nobody holds - keeps it the same from one fresh run to the next, whatever the process id is
+    import fcntl
+
+    _W.root = None
+    for slot in range(256):
+        lock_path = os.path.join(base, "verif-c18-slot%03d.lock" % slot)
+        fd = os.open(lock_path, os.O_RDWR | os.O_CREAT, 0o600)
+        try:
+            fcntl.flock(fd, fcntl.LOCK_EX | fcntl.LOCK_NB)
+        except OSError:
+            os.close(fd)
+            continue
+        _W.slot_fd = fd  # held until the process ends
+        _W.root = os.path.join(base, "verif-c18-slot%03d" % slot)
+        break
+    if _W.root is None:
+        raise HarnessError("no free scratch slot")
     shutil.rmtree(_W.root, ignore_errors=True)
     os.makedirs(_W.root)
     _W.scratch = _W.root
@@ -332,7 +350,8 @@ class DataState:
             new = cur + b"\n# stale %d\n" % self.gen
         with open(path, "wb") as f:
             f.write(new)
-        t = MTIME_NS + self.gen * 1_000_000_000
+        # half of the edits land within the same second as the recorded time stamp (only the nanoseconds tell)
+        t = MTIME_NS + self.gen * (1_000_003 if variant % 2 else 1_000_000_000)
         os.utime(path, ns=(t, t))
         self.mods.append((target, variant))
         return True
@@ -479,7 +498,7 @@ class Run:
             by_cat: dict = {"quick": [], "dev": [], "cfg": []}
             for k in answers:
                 kind = k.split(":")[0]
-                cat = "quick" if kind.startswith("q") else ("cfg" if kind in ("sch", "cfg") else "dev")
+                cat = "quick" if kind.startswith("q") else ("cfg" if kind in ("sch", "cfg", "schmut") else "dev")
                 by_cat[cat].append(k)
             _W.refs[key] = (by_cat, answers)
         self.ref = _W.refs[key]
